@@ -218,10 +218,52 @@ class Inliner:
         seen: Dict[str, int] = {}
         cands: Dict[str, Helper] = {}
 
+        def memo_transparent(fn) -> bool:
+            """a memoising decorator on a module-level function whose parameters are annotated as immutable scalars and whose body
+            reads nothing but them (and module-level constants / functions): the cache cannot change any result"""
+            a = fn.args
+            if a.vararg or a.kwarg:
+                return False
+            ok_ann = {"int", "float", "str", "bool", "bytes", "timedelta", "datetime", "date", "tuple", "frozenset", "TimeFrame"}
+
+            def imm(ann) -> bool:
+                if ann is None:
+                    return False
+                if isinstance(ann, ast.Constant) and isinstance(ann.value, str):
+                    try:
+                        ann = ast.parse(ann.value, mode="eval").body
+                    except SyntaxError:
+                        return False
+                if isinstance(ann, ast.Name):
+                    return ann.id in ok_ann
+                if isinstance(ann, ast.Attribute):
+                    return ann.attr in ok_ann
+                if isinstance(ann, ast.Subscript):
+                    head = ast.unparse(ann.value).split(".")[-1]
+                    if head == "Optional":
+                        return imm(ann.slice)
+                    if head in ("Tuple", "tuple", "FrozenSet", "frozenset"):
+                        elts = ann.slice.elts if isinstance(ann.slice, ast.Tuple) else [ann.slice]
+                        return all(isinstance(e, ast.Constant) and e.value is Ellipsis or imm(e) for e in elts)
+                    return False
+                if isinstance(ann, ast.BinOp) and isinstance(ann.op, ast.BitOr):
+                    return all(isinstance(x, ast.Constant) and x.value is None or imm(x) for x in (ann.left, ann.right))
+                return False
+
+            if not all(imm(x.annotation) for x in a.args + a.kwonlyargs + a.posonlyargs):
+                return False
+            if any(isinstance(n, (ast.Global, ast.Nonlocal, ast.Yield, ast.YieldFrom, ast.Await)) for n in ast.walk(fn)):
+                return False
+            if any(isinstance(n, ast.Attribute) and isinstance(n.ctx, (ast.Store, ast.Del)) for n in ast.walk(fn)):
+                return False
+            return True
+
         def deco_kind(fn, in_class):
             kinds = [ast.unparse(d) for d in fn.decorator_list]
             if not kinds:
                 return "method" if in_class else "function"
+            if not in_class and len(kinds) == 1 and kinds[0].split("(")[0].split(".")[-1] in ("lru_cache", "cache") and memo_transparent(fn):
+                return "function"
             if kinds == ["staticmethod"]:
                 return "static"
             if kinds == ["classmethod"]:
